@@ -91,6 +91,10 @@ def evaluate(a, dst, confirm):
                 print("PATCH DOES NOT APPLY", r.stderr)
                 return res
         res["checks"] = run_checks(wt, props, a.tier)
+        if a.fallback and not any(v["exit"] == 1 for v in res["checks"].values()):
+            extra = [p for p in a.fallback.split(",") if p not in props]
+            print("   target check(s) missed it; trying", extra)
+            res["checks"].update(run_checks(wt, extra, a.tier))
         return res
     res = with_worktree(body)
     if confirm:
@@ -118,6 +122,7 @@ def main():
         q.add_argument("--all", action="store_true")
         q.add_argument("--tier", default="quick")
         q.add_argument("--skip-tests", action="store_true")
+        q.add_argument("--fallback", help="comma separated property ids to try when the target's check does not catch it")
     a = ap.parse_args()
     if a.cmd == "ingest":
         ingest(a)
